@@ -373,6 +373,18 @@ impl<K: KeyT, V: ValT> MapWorld<K, V> {
                     }
                     st = St::Done;
                 }
+                (St::E, 26) => {
+                    // or_default: the value is created inside hashbrown (payload 0, serial unknown to the model)
+                    let vfresh = if V::HAS_SERIAL { crate::mapw_entry::FRESH } else { 0 };
+                    match occ {
+                        Some(i) => log.push(Ev::Val(model.e[i].v, model.e[i].vs)),
+                        None => {
+                            model.e.push(ME { kid, ks: eks, v: 0, vs: vfresh });
+                            log.push(Ev::Val(0, vfresh));
+                        }
+                    }
+                    st = St::Done;
+                }
                 (St::E, 5) => {
                     let e = occ.map(|i| model.e[i]);
                     // Entry::key() returns the entry's own key for Vacant, the stored key for Occupied
@@ -558,6 +570,12 @@ impl<K: KeyT, V: ValT> MapWorld<K, V> {
                         log.push(Ev::Key(e.key().id(), e.key().serial()));
                         St::E(e)
                     }
+                    (St::E(e), 26) => {
+                        sim().probe(Probe::EntryOrDefault);
+                        let r = e.or_default();
+                        log.push(Ev::Val(r.val(), r.serial()));
+                        St::Done
+                    }
                     (St::E(e), 6) => St::E(e.and_modify(|v| {
                         tick(Class::Pred);
                         v.set(v.val() ^ Self::TG)
@@ -706,8 +724,16 @@ impl<K: KeyT, V: ValT> MapWorld<K, V> {
             self.slots[si].model.e = act.into_iter().map(|x| x.0).collect();
             return Ok(());
         }
-        if log != expect {
+        if !crate::mapw_entry::logs_match(&expect, &log) {
             vio!(self, "entry/Entry", "entry({kid}) chain {:?} observed {:?}, the model expects {:?}", &op.v[1..], log, expect);
+        }
+        if expect_model.e.iter().any(|e| e.vs == crate::mapw_entry::FRESH) {
+            let act = self.actual(si);
+            for e in expect_model.e.iter_mut().filter(|e| e.vs == crate::mapw_entry::FRESH) {
+                if let Some((a, _)) = act.iter().find(|(a, _)| a.kid == e.kid) {
+                    e.vs = a.vs;
+                }
+            }
         }
         self.slots[si].model = expect_model;
         Ok(())
@@ -736,13 +762,44 @@ impl<K: KeyT, V: ValT> MapWorld<K, V> {
         let base = Self::nv((op.b as u32) & !TOGGLE);
         let fc = self.fctx(si, op);
         let views: Vec<K::View> = ids.iter().map(|&i| K::view(i)).collect();
+        // the unchecked flavours have "no overlapping keys" as their safety precondition: only with pairwise
+        // different keys and lawful Hash/Eq
+        let distinct = (0..n).all(|i| (0..i).all(|j| ids[i] != ids[j]));
+        let unchecked = op.c == 3 && distinct && self.ctx.functional() && self.ctx.cfg.eq_mode == crate::state::EqMode::Lawful;
+        if unchecked {
+            sim().probe(Probe::GetManyUnchecked);
+        }
         let m = self.slots[si].map.as_mut().unwrap();
         // result per request: Some((key serial or 0, val serial, old val, address)) or None
         type R = Vec<Option<(u32, u32, u32, usize)>>;
         macro_rules! many {
             ($n:expr) => {{
                 let ks: [&K::View; $n] = std::array::from_fn(|i| &views[i]);
-                if kv {
+                if unchecked && kv {
+                    let r = unsafe { m.get_many_key_value_unchecked_mut(ks) };
+                    r.into_iter()
+                        .enumerate()
+                        .map(|(i, o)| {
+                            o.map(|(k, v)| {
+                                let x = (k.serial(), v.serial(), v.val(), v as *mut V as usize);
+                                v.set(Self::nv(base + i as u32));
+                                x
+                            })
+                        })
+                        .collect::<R>()
+                } else if unchecked {
+                    let r = unsafe { m.get_many_unchecked_mut(ks) };
+                    r.into_iter()
+                        .enumerate()
+                        .map(|(i, o)| {
+                            o.map(|v| {
+                                let x = (0, v.serial(), v.val(), v as *mut V as usize);
+                                v.set(Self::nv(base + i as u32));
+                                x
+                            })
+                        })
+                        .collect::<R>()
+                } else if kv {
                     let r = m.get_many_key_value_mut(ks);
                     r.into_iter()
                         .enumerate()
